@@ -1,7 +1,7 @@
 // bounded stand-in / replay driver (appended to acts/src/scheduler/tests/task.rs of a scratch copy): property C03.
 // "A workflow, step, branch or composite act is reported successfully completed only when every task started beneath it is terminal ...
 // each process delivers exactly one terminal event ... when that event reports a non-error ending no task other than lifecycle-hook
-// acts is still open".  8 shapes with parallel children (branches, generated acts, hook acts, nesting); the open interrupt acts are
+// acts is still open".  8 + 2 (error) shapes with parallel children (branches, generated acts, hook acts, nesting); the open interrupt acts are
 // answered ONE AT A TIME and after every answer the invariant is checked on the live process: no successfully completed task has an
 // open task beneath it, and no terminal process event was delivered while a non-hook task is open.
 #[tokio::test]
@@ -34,7 +34,7 @@ async fn verif_replay_hist_completion() {
         w.steps.push(s);
         w
     };
-    let shapes: Vec<(&str, Workflow)> = vec![
+    let mut shapes: Vec<(&str, Workflow)> = vec![
         ("two branches", two_branches(false, false)),
         ("two branches + created-hook on the step", two_branches(true, false)),
         ("nested branches", two_branches(false, true)),
@@ -44,7 +44,21 @@ async fn verif_replay_hist_completion() {
         ("sequence generator", generated("acts.core.sequence", false)),
         ("sequence generator + created-hook on the step", generated("acts.core.sequence", true)),
     ];
+    // error shapes: the FIRST open act is failed by the client (error action) while a sibling is still waiting; afterwards only the invariant is
+    // watched (whether and how such a process ends is C06's business): nothing may be reported successfully completed above the act still open
+    {
+        use crate::package::RunningMode;
+        let mut w = Workflow::new().with_step(|step| step.with_id("step1"));
+        w.steps[0].acts.push(Act::block(Vars::new().with("mode", RunningMode::Parallel).with("acts", vec![
+            Act::block(Vars::new().with("mode", RunningMode::Parallel).with("acts", vec![Act::irq(|a| a.with_key("x")).with_id("x"), Act::irq(|a| a.with_key("y")).with_id("y")])).with_id("inner")])).with_id("outer").with_catch(|c| c));
+        shapes.push(("ERR act catch over a nested parallel block, one act failed", w));
+        let mut w = Workflow::new().with_step(|step| step.with_id("step1").with_catch(|c| c));
+        w.steps[0].acts.push(Act::block(Vars::new().with("mode", RunningMode::Parallel).with("acts", vec![Act::irq(|a| a.with_key("x")).with_id("x"), Act::irq(|a| a.with_key("y")).with_id("y")])).with_id("blk"));
+        let w = w.with_step(|s| s.with_id("last").with_act(Act::irq(|a| a.with_key("z")).with_id("z")));
+        shapes.push(("ERR step catch over a parallel block, one act failed", w));
+    }
     for (name, wf) in shapes.into_iter() {
+        let fail_first = name.starts_with("ERR");
         let mut workflow = wf;
         let pid = utils::longid();
         let (proc, rt, emitter, _tx, _rx) = create_proc_signal::<()>(&mut workflow, &pid);
@@ -86,8 +100,18 @@ async fn verif_replay_hist_completion() {
             // answer ONE open act (the first by node id, so that runs are reproducible)
             open.sort_by(|a, b| a.node().id().cmp(b.node().id()));
             let t = open[0].clone();
-            let _ = rt.do_action(&Action::new(&pid, &t.id, EventAction::Next, &Vars::new()));
+            if fail_first {
+                if rounds >= 1 { break; }
+                let _ = rt.do_action(&Action::new(&pid, &t.id, EventAction::Error, &Vars::new().with(crate::utils::consts::ACT_ERR_CODE, "e1")));
+            } else {
+                let _ = rt.do_action(&Action::new(&pid, &t.id, EventAction::Next, &Vars::new()));
+            }
             rounds += 1;
+        }
+        if fail_first {
+            tokio::time::sleep(std::time::Duration::from_millis(400)).await;
+            check("after the error and 400 ms", &mut bad);
+            continue;
         }
         tokio::time::sleep(std::time::Duration::from_millis(150)).await;
         if !proc.state().is_completed() { bad.push(format!("REPLAY-FAIL [{name}] the process did not finish after {rounds} answers ({})", proc.state())); }
